@@ -49,7 +49,7 @@ theorem matchDatum_ident {n lits v d σ} :
     matchDatum (n+1) lits (.ident v) d σ =
       if lits.contains v then .ok (match d with | .sym s _ => s == v | _ => false, σ)
       else .ok (true, σ.insert v (d, [])) := by
-  rw [matchDatum]; cases lits.contains v <;> simp
+  cases d <;> cases h : lits.contains v <;> simp_all [matchDatum]
 
 theorem matchDatum_var {n lits v d σ} (h : lits.contains v = false) :
     matchDatum (n+1) lits (.ident v) d σ = .ok (true, σ.insert v (d, [])) := by
@@ -63,20 +63,19 @@ theorem matchDatum_lit {n lits v d σ} (h : lits.contains v = true) :
 theorem matchDatum_prim {n lits a d σ} :
     matchDatum (n+1) lits (.prim a) d σ =
       .ok (match d with | .prim b _ => a == b | _ => false, σ) := by
-  rw [matchDatum]; cases d <;> simp
+  cases d <;> simp [matchDatum]
 
 theorem matchDatum_vec {n lits ps d σ} :
     matchDatum (n+1) lits (.vec ps) d σ =
       match d with
       | .vec ds _ => matchStream n lits ps ds none σ
       | _ => .ok (false, σ) := by
-  rw [matchDatum]; cases d <;> simp
+  cases d <;> simp [matchDatum]
 
 /-- a list pattern against a datum that is not a list -/
 theorem matchDatum_listy_atom {n lits p d σ} (hp : p.isListy = true) (hd : d.isListy = false) :
     matchDatum (n+1) lits p d σ = .ok (false, σ) := by
-  rw [matchDatum]
-  cases p <;> cases d <;> simp_all [Pat.isListy, Datum.isListy]
+  cases p <;> cases d <;> simp_all [Pat.isListy, Datum.isListy, matchDatum]
 
 /-- a list pattern against a list: the elements as a stream, then the two tails -/
 theorem matchDatum_listy {n lits p d σ} (hp : p.isListy = true) (hd : d.isListy = true) :
@@ -89,9 +88,9 @@ theorem matchDatum_listy {n lits p d σ} (hp : p.isListy = true) (hd : d.isListy
         | some lp, some ld => matchDatum n lits lp ld σ1
         | none, none => .ok (true, σ1)
         | _, _ => .ok (false, σ1) := by
-  rw [matchDatum]
   cases p <;> cases d <;> simp_all [Pat.isListy, Datum.isListy] <;>
-  · simp only [bind, Except.bind, pure, Except.pure]
+  · rw [matchDatum]
+    simp only [bind, Except.bind, pure, Except.pure]
     cases matchStream n lits _ _ none σ with
     | error e => rfl
     | ok r =>
@@ -115,7 +114,7 @@ theorem matchStream_cons_nil_ne {n lits p ps mm σ} (hp : p.isEllipsis = false) 
 
 @[simp] theorem matchStream_ell_nil_none {n lits ps σ} :
     matchStream (n+1) lits (.ellipsis :: ps) [] none σ = .ok (false, σ) := by
-  rw [matchStream]
+  simp [matchStream]
 
 @[simp] theorem matchStream_ell_nil_some {n lits ps mp σ} :
     matchStream (n+1) lits (.ellipsis :: ps) [] (some mp) σ =
@@ -222,5 +221,130 @@ theorem _root_.Ruschm.Datum.spine_size (d : Datum) :
   | case2 => simp [Datum.sizeList, Datum.tsize, Datum.size, Datum.isListy]
   | case3 p h1 h2 =>
     cases p <;> simp_all [Datum.sizeList, Datum.tsize, Datum.isListy]
+
+/-! ## Fuel: the matcher terminates
+
+`p.size + d.size` units of fuel suffice for matching `p` against `d`, for ALL patterns and data.
+(`matchFuel d` alone does not: each `...` that is skipped at the end of the data costs a unit, so
+the need grows with the pattern.) -/
+
+/-- the fuel that suffices for matching `p` against `d` -/
+def matchBound (p : Pat) (d : Datum) : Nat := p.size + d.size
+
+theorem match_fuel_aux (lits : List String) : ∀ n,
+    (∀ p d σ l, p.size + d.size ≤ n → matchDatum n lits p d σ ≠ .error (.fuel, l)) ∧
+    (∀ ps ds mm σ l, Pat.sizeList ps + Datum.sizeList ds + Pat.tsize mm + 1 ≤ n →
+      matchStream n lits ps ds mm σ ≠ .error (.fuel, l)) := by
+  intro n
+  induction n with
+  | zero =>
+    refine ⟨fun p d σ l h => ?_, fun ps ds mm σ l h => by omega⟩
+    have := p.size_pos; omega
+  | succ n ih =>
+    obtain ⟨ihD, ihS⟩ := ih
+    constructor
+    · intro p d σ l hsz
+      cases hp : p.isListy
+      · -- atoms and vectors
+        cases p <;> simp [Pat.isListy] at hp
+        · simp
+        · simp
+        · rw [matchDatum_vec]
+          cases d <;> simp
+          rename_i ps ds loc
+          apply ihS
+          simp [Pat.size, Datum.size, Pat.tsize] at hsz ⊢
+          omega
+        · rw [matchDatum_ident]; split <;> simp
+        · rw [matchDatum_prim]; simp
+      · cases hd : d.isListy
+        · rw [matchDatum_listy_atom hp hd]; simp
+        · rw [matchDatum_listy hp hd]
+          have h1 := p.spine_size
+          have h2 := d.spine_size
+          simp only [hp, hd, if_true] at h1 h2
+          intro h
+          split at h
+          · rename_i e he
+            cases h
+            exact ihS _ _ _ _ _ (by simp [Pat.tsize]; omega) he
+          · cases h
+          · rename_i σ1 he
+            split at h
+            · rename_i lp ld hlp hld
+              simp only [hlp, hld, Pat.tsize, Datum.tsize] at h1 h2
+              exact ihD _ _ _ _ (by omega) h
+            · cases h
+            · cases h
+    · intro ps ds mm σ l hsz
+      cases ps with
+      | nil => cases ds <;> simp
+      | cons p ps =>
+        cases ds with
+        | nil =>
+          cases hp : p.isEllipsis
+          · rw [matchStream_cons_nil_ne hp]; simp
+          · cases p <;> simp [Pat.isEllipsis] at hp
+            cases mm with
+            | none => simp
+            | some mp =>
+              rw [matchStream_ell_nil_some]
+              apply ihS
+              simp [Pat.sizeList, Pat.size] at hsz ⊢
+              omega
+        | cons d ds =>
+          have hd := d.size_pos
+          have hpp := p.size_pos
+          simp only [Pat.sizeList, Datum.sizeList] at hsz
+          cases hp : p.isEllipsis
+          · rw [matchStream_step_ne hp]
+            intro h
+            split at h
+            · rename_i e he
+              cases h
+              exact ihD _ _ _ _ (by omega) he
+            · cases h
+            · refine ihS _ _ _ _ _ ?_ h
+              have : Pat.tsize (nextMM lits p) ≤ p.size := by
+                unfold nextMM; split
+                · split <;> simp [Pat.tsize, Pat.size]
+                · simp [Pat.tsize]
+              omega
+          · cases p <;> simp [Pat.isEllipsis] at hp
+            cases n with
+            | zero => omega
+            | succ n =>
+              cases mm with
+              | none => rw [matchStream_ell_none]; simp
+              | some mp =>
+                rw [matchStream_step_ell]
+                simp only [Pat.tsize] at hsz
+                intro h
+                split at h
+                · rename_i e he
+                  cases h
+                  exact ihD _ _ _ _ (by omega) he
+                · cases h
+                · split at h
+                  · cases h
+                  · split at h
+                    · rename_i e he
+                      cases h
+                      refine ihS _ _ _ _ _ ?_ he
+                      simp only [Pat.sizeList, Pat.tsize]; omega
+                    · cases h
+                    · refine ihS _ _ _ _ _ ?_ h
+                      simp only [Pat.tsize]; omega
+
+/-- **the matcher terminates**: `p.size + d.size` units of fuel suffice, for all patterns, data,
+literals and tables -/
+theorem matchDatum_fuel {lits n p d σ l} (h : matchBound p d ≤ n) :
+    matchDatum n lits p d σ ≠ .error (.fuel, l) :=
+  (match_fuel_aux lits n).1 p d σ l h
+
+theorem matchStream_fuel {lits n ps ds mm σ l}
+    (h : Pat.sizeList ps + Datum.sizeList ds + Pat.tsize mm + 1 ≤ n) :
+    matchStream n lits ps ds mm σ ≠ .error (.fuel, l) :=
+  (match_fuel_aux lits n).2 ps ds mm σ l h
 
 end Ruschm.Macro
